@@ -53,6 +53,27 @@ Definition sasl_negotiateServer_returns : list (bytes * bytes) := [
 Definition sasl_negotiateServer_mask_writes : nat := 0.
 Definition sasl_negotiateServer_elements : list bytes := [(hex "61757468"); (hex "61626f7274"); (hex "726573706f6e7365")].
 Definition sasl_decodeSASLChallenge_elements : list bytes := [(hex "6368616c6c656e6765"); (hex "73756363657373"); (hex "6661696c757265")].
-Definition sasl_payload_threshold : nat := 1.   (* if l > 1 { decode } *)
+Definition sasl_server_decode_subject : bytes := (hex "73656c656374696f6e2e5061796c6f6164").   (* selection.Payload *)
+Definition sasl_server_decode_guard : bytes := (hex "6c656e287029203e20302026262021286c656e287029203d3d203120262620705b305d203d3d20273d2729").   (* if len(p) > 0 && !(len(p) == 1 && p[0] == '=') { decode } *)
 Definition sasl_conditions : list (bytes * nat) := [((hex "436f6e646974696f6e4e6f6e65"), 0); ((hex "436f6e646974696f6e41626f72746564"), 1); ((hex "436f6e646974696f6e4163636f756e7444697361626c6564"), 2); ((hex "436f6e646974696f6e43726564656e7469616c7345787069726564"), 3); ((hex "436f6e646974696f6e456e6372797074696f6e5265717569726564"), 4); ((hex "436f6e646974696f6e496e636f7272656374456e636f64696e67"), 5); ((hex "436f6e646974696f6e496e76616c6964417574687a4944"), 6); ((hex "436f6e646974696f6e496e76616c69644d656368616e69736d"), 7); ((hex "436f6e646974696f6e4d616c666f726d656452657175657374"), 8); ((hex "436f6e646974696f6e4d656368616e69736d546f6f5765616b"), 9); ((hex "436f6e646974696f6e4e6f74417574686f72697a6564"), 10); ((hex "436f6e646974696f6e54656d706f72617279417574684661696c757265"), 11)].
 Definition sasl_server_conditions : list bytes := [(hex "436f6e646974696f6e496e76616c69644d656368616e69736d"); (hex "436f6e646974696f6e41626f72746564"); (hex "436f6e646974696f6e4d616c666f726d656452657175657374"); (hex "436f6e646974696f6e4d616c666f726d656452657175657374"); (hex "436f6e646974696f6e4e6f74417574686f72697a6564")].  (* [ConditionInvalidMechanism ConditionAborted ConditionMalformedRequest ConditionMalformedRequest ConditionNotAuthorized] *)
+
+(* ---- sasl.go newSASL: the feature value and what its closures capture ---- *)
+Definition sasl_newSASL_params : list bytes := [(hex "6964656e74697479") (* identity *); (hex "70617373776f7264") (* password *); (hex "7065726d697373696f6e73") (* permissions *); (hex "6d656368616e69736d73") (* mechanisms *)].
+(* variables newSASL declares besides its parameters (outside the function literals) *)
+Definition sasl_newSASL_locals : list bytes := [].
+Definition sasl_feature_closures : list bytes := [(hex "4c697374") (* List *); (hex "5061727365") (* Parse *); (hex "4e65676f7469617465") (* Negotiate *)].
+(* (closure, variable of newSASL it mentions) *)
+Definition sasl_closure_captures : list (bytes * bytes) := [((hex "4c697374"), (hex "6d656368616e69736d73")) (* List, mechanisms *); ((hex "4e65676f7469617465"), (hex "6964656e74697479")) (* Negotiate, identity *); ((hex "4e65676f7469617465"), (hex "70617373776f7264")) (* Negotiate, password *); ((hex "4e65676f7469617465"), (hex "7065726d697373696f6e73")) (* Negotiate, permissions *); ((hex "4e65676f7469617465"), (hex "6d656368616e69736d73")) (* Negotiate, mechanisms *)].
+(* (closure, use of a variable of newSASL that can change it or hand out a reference into it) *)
+Definition sasl_closure_writes : list (bytes * bytes) := [].
+(* where the value that Parse decodes <mechanisms/> into (`parsed`) is declared: 0 = inside the call of Parse, 1 = in newSASL (captured by the feature value), 2 = elsewhere *)
+Definition sasl_parse_target_scope : nat := 0.
+Definition sasl_package_vars : list bytes := [(hex "6572724e6f4d656368616e69736d73") (* errNoMechanisms *); (hex "657272556e65787065637465645061796c6f6164") (* errUnexpectedPayload *); (hex "6572725465726d696e61746564") (* errTerminated *)].
+(* (function, assignment / address-of / slicing of a package-level variable of sasl.go) *)
+Definition sasl_package_var_writes : list (bytes * bytes) := [].
+(* (function, assignment / address-of / slicing through its parameter `mechanisms` or `data`) *)
+Definition sasl_param_writes : list (bytes * bytes) := [].
+
+(* ---- sasl.go: calls of base64.StdEncoding.Decode and whether the error is tested and returned at once ---- *)
+Definition sasl_b64_decodes : list (bytes * bytes) := [((hex "6e65676f7469617465536572766572"), (hex "636865636b6564")) (* negotiateServer, checked *); ((hex "6465636f64655341534c4368616c6c656e6765"), (hex "636865636b6564")) (* decodeSASLChallenge, checked *)].
